@@ -93,6 +93,10 @@ def run(chk, ctx):
         for rec in it.yields:
             st, cons = rec.state, ycons(run_, rec)
             if rec.kind in ("Copy", "Move") and rec.arg(2) == WORK and is_lin(rec.arg(0)):
+                if not shared.trk_values(st) or it.untracked:
+                    chk.decide("C13.SIB", cons + "/tracking", None, "the checkpoint stack is not a tracked local container",
+                               rel=run_.rel, node=rec.node)
+                    continue
                 popped = [c for c, v in shared.trk_values(st).items() if v == {"X"}]
                 x = rec.arg(0)
                 if popped:
@@ -159,9 +163,11 @@ def run(chk, ctx):
             chk.decide("C13.SIB", f"{two[0].construct}#planner-call[{k}]", True if same else False,
                        f"steps {pstr(dict(s2))} / units-capacity {pstr(dict(u2))}  vs. Multistage steps {pstr(dict(s1))} / "
                        f"units-capacity {pstr(dict(u1))}", rel=two[0].rel, node=c2)
+    shared.rule_config(chk, "C13.CONFIG", ctx.repo, classes=[TWO, MULTI])
     r2, r1 = roles(two[0]), roles(ref[0])
     cons = f"{two[0].construct}#roles"
-    chk.decide("C13.SIB", cons, None if (r1 is None or r2 is None) else (True if r1 == r2 else False),
+    tracked = not (two[0].interp.untracked or ref[0].interp.untracked) and two[0].interp.containers and ref[0].interp.containers
+    chk.decide("C13.SIB", cons, None if (r1 is None or r2 is None or not tracked) else (True if r1 == r2 else False),
                f"action roles of the block reversal {r2} vs. Multistage reversal {r1}", rel=two[0].rel, node=two[0].fn)
     rule_label(chk, "C13.LABEL", two)
     chk.note("not decided: optimality itself (C05); the clause decided is that TwoLevel's untested block-reversal path "
